@@ -26,6 +26,8 @@ def _build(repo):
         s = open(cargo).read().replace("@REPO@", repo)
         open(cargo, "w").write(s)
         lock = os.path.join(repo, "Cargo.lock")
+        if os.path.exists(lock):
+            shutil.copy(lock, os.path.join(work, "replay", "Cargo.lock"))
         env = dict(os.environ, CARGO_NET_OFFLINE="true", CARGO_TARGET_DIR=tdir)
         p = subprocess.run(["cargo", "build", "--release", "--offline", "--quiet"], cwd=os.path.join(work, "replay"),
                            env=env, stdout=subprocess.PIPE, stderr=subprocess.PIPE, universal_newlines=True, timeout=900)
@@ -36,7 +38,18 @@ def _build(repo):
         shutil.rmtree(work, ignore_errors=True)
 
 
-def search(pid, cfg, failure, repo, seed):
+def _wargs(w):
+    out = [str(w.get("kind", ""))]
+    for k, v in w.items():
+        if k in ("kind", "found", "actual"):
+            continue
+        if isinstance(v, bool):
+            v = "true" if v else "false"
+        out.append("%s=%s" % (k, str(v).encode("utf-8").hex()))
+    return out
+
+
+def search(pid, cfg, failure, repo, seed, extra=()):
     name = cfg.get("replay")
     if not name:
         return {"found": False, "reason": "no searcher for this property"}
@@ -44,10 +57,13 @@ def search(pid, cfg, failure, repo, seed):
     if exe is None:
         return {"found": False, "reason": err}
     try:
-        p = subprocess.run([exe, "search", pid, str(seed)], stdout=subprocess.PIPE, stderr=subprocess.PIPE,
-                           universal_newlines=True, timeout=300)
+        p = subprocess.run([exe, "search", pid, str(seed)] + list(extra), stdout=subprocess.PIPE, stderr=subprocess.PIPE,
+                           universal_newlines=True, timeout=600)
     except subprocess.TimeoutExpired:
         return {"found": False, "reason": "search timed out"}
+    if p.returncode != 0 and "WITNESS" not in p.stdout:
+        # a panic / abort of the real code during the search is itself a finding for the caller to look at
+        return {"found": False, "reason": "searcher exited with %d: %s" % (p.returncode, (p.stderr or "")[-400:])}
     for ln in p.stdout.split("\n"):
         if ln.startswith("WITNESS "):
             try:
@@ -68,11 +84,12 @@ def confirm_known(k, repo):
     if exe is None:
         return "witness not replayed: " + err
     try:
-        p = subprocess.run([exe, "witness", json.dumps(w)], stdout=subprocess.PIPE, stderr=subprocess.PIPE,
+        p = subprocess.run([exe, "witness"] + _wargs(w), stdout=subprocess.PIPE, stderr=subprocess.PIPE,
                            universal_newlines=True, timeout=120)
     except subprocess.TimeoutExpired:
         return "witness replay timed out"
-    return (p.stdout.strip().split("\n") or [""])[-1][:200]
+    last = (p.stdout.strip().split("\n") or [""])[-1][:200]
+    return "witness replayed on the real code: " + ("still fails - " if p.returncode == 1 else "no longer fails - ") + last
 
 
 def run_replay(path, repo):
@@ -87,6 +104,6 @@ def run_replay(path, repo):
     if exe is None:
         print(err)
         return 2
-    p = subprocess.run([exe, "witness", json.dumps(w)], stdout=subprocess.PIPE, stderr=subprocess.PIPE, universal_newlines=True)
+    p = subprocess.run([exe, "witness"] + _wargs(w), stdout=subprocess.PIPE, stderr=subprocess.PIPE, universal_newlines=True)
     print(p.stdout)
     return p.returncode
